@@ -150,7 +150,7 @@ func GenScenario(tp *tape.Tape, seed uint64, pf Profile) *Scenario {
 	if tp.Chance(150, 1000) {
 		sc.Place = Placements[4+tp.Int(2)]
 	} else {
-		w := []int{0, 0, 0, 1, 2, 3, 6, 7, 8, 9, 10, 11, 12, 12}
+		w := []int{0, 0, 0, 1, 2, 3, 6, 7, 8, 9, 10, 11, 12, 12, 12}
 		sc.Place = Placements[w[tp.Int(len(w))]]
 	}
 	sc.IncompleteMod = tp.Chance(70, 1000)
@@ -159,7 +159,7 @@ func GenScenario(tp *tape.Tape, seed uint64, pf Profile) *Scenario {
 		// a scripted regeneration history with random flags: generate in place,
 		// change something, regenerate with -rm (and once more without)
 		sc.IncompleteMod = false
-		sc.Place = Placements[[]int{0, 0, 7, 8, 9, 11}[tp.Int(6)]]
+		sc.Place = Placements[[]int{0, 0, 7, 8, 9, 10}[tp.Int(6)]]
 		first := genRun(tp, Profile{}, sc.Place)
 		first.Rm = false
 		again := first
